@@ -6,6 +6,15 @@ import json, os
 HOOK_COMMITS = []  # filled from git below
 
 CHECKS = {
+    "C10": ("exploration", "stateful PBT over report histories: distribution invariants + differential (two engines) + metamorphic one-extra-report relations",
+            "Generated histories of local-trust statements, all nine statistics updates (amounts to 2^40), anchor changes and node removals; after compute: finite scores in [0,1], sum 1 (or all 0), a second engine fed the same history agrees within 1e-6, get_trust equals the computed score and is 0 for unknown ids; one more success never lowers / one more failure never raises the target's score, corrupted-data and protocol-violation cost at least a failure.",
+            "Runs on tokio's paused clock; monotonicity is asserted for statistics reports, not for pairwise local-trust statements.", "5/C10"),
+    "C11": ("exploration", "PBT over attack graphs with bound oracle on the closed set's aggregate trust and anchor floor",
+            "Honest graphs (density 0..h², including honest nodes with no outgoing statements) × 1..50 anchors × unvouched sets of 1..1000 identities in clique/star/chain/self-loop/random patterns, equal statistics: aggregate trust of the closed set ≤ (1/7)·s/(h+s) and < 0.1% for ≤100 nodes; every anchor ≥ 0.4/a.",
+            "No honest→Sybil edge exists by construction; equal statistics for all identities.", "5/C11"),
+    "C16": ("exploration", "model-based stateful PBT (eviction manager vs reference model) + ranking/validity predicates over generated candidate lists",
+            "(a) success/failure/trust/mark/forget histories vs a reference model of candidacy and reason precedence after every step; (b) add/evict/fail/lookup histories on a LogOnly core engine: removed peers never reappear; (c) selector: output ⊆ candidates, distinct, ≤ count, storage floor 0.2, no farther peer ahead of a closer one of equal trust (full 256-bit distance), uniform trust ⇒ exactly the closest in order; (d) trust selection off ⇒ StoreReceipt.stored_at is the 8 closest in order.",
+            "Ranking claims asserted for trust/weights inside [0,1]; candidate ids pairwise distinct.", "5/C16"),
     # id: (category, technique, level text, note, design_ref)
     "C12": ("exploration", "model-based stateful PBT (proptest histories vs reference counter model) + barrier-released thread rounds",
             "Generated histories of validate/batch/sync-reload/cleanup over 1..4 peers are compared step by step with a reference model (last accepted number per peer, wall-clock window with a dead band); a second sub-check releases 2..16 threads on the same (peer, seq) and requires exactly one acceptance. Exploration is the right level: the state space is unbounded and the oracle is exact and cheap.",
